@@ -6,9 +6,9 @@
    Part 2  handleThrow on an explicit try stack (vm.go:800-844), catchable and uncatchable payloads.
    Part 3  the control skeleton: an execution-tree semantics with explicit callStack length, tryStack,
            iterStack, jobQueue, flag and value; every push/pop of vm.go / func.go / runtime.go that moves
-           these is transcribed, including which pops are deferred (run on the panic path) and which
-           are not (generator.next / asyncRunner.start: finding F16).  [fixed = true] is the specification S
-           (every frame popped on every path); [fixed = false] is goja as it is (I).
+           these is transcribed, including which pops are deferred (run on the panic path).  After the repairs
+           22853aa (dropStacks) and 195c9cc (leaveOnPanic) goja's frame discipline IS the specification: every
+           frame is popped on every path, so there is one model.
    Part 4  the interleaving model of the flag protocol (Interrupt / poll+read) with happens-before. *)
 From Coq Require Import List Arith NArith Bool Lia.
 Import ListNotations.
@@ -117,7 +117,6 @@ Definition idle0 : st := mkSt 0 [] [] [] false 0%N [] 0 0 0.
 
 (* the configuration of a case *)
 Record cfg := mkCfg {
-  fixed : bool;                (* true: specification S; false: goja as it is *)
   kth : nat;                   (* the probe call that interrupts (1-based; 0: none) *)
   clr : bool;                  (* the probe calls ClearInterrupt right after Interrupt *)
   fire : option (nat * N)      (* another goroutine calls Interrupt(tok) at micro-step t *)
@@ -280,9 +279,9 @@ Section Exec.
         | OThrow => let '(o', s3) := restore_to c d s2 in
                     match o' with
                     | OThrow => (ONorm, pop_ctx (pop_frame s3))   (* promise rejected *)
-                    | _ => (o', if fixed c then pop_ctx (pop_frame (unwind_u c s3)) else unwind_u c s3)
+                    | _ => (o', pop_ctx (pop_frame (unwind_u c s3)))
                     end
-        | OIntr _ => (o, if fixed c then pop_ctx (pop_frame (unwind_u c s2)) else unwind_u c s2)
+        | OIntr _ => (o, pop_ctx (pop_frame (unwind_u c s2)))
         end
     | IJob b => (ONorm, enqueue (JPlain b) s)
     end
@@ -381,7 +380,8 @@ Section Exec.
     end
 
   (* generatorObject.next -> generator.next: native context; enterNext = pushCtx; pushTryFrame(marker);
-     extra frame; step(); popTryFrame; popCtx — the two pops are NOT deferred (func.go:871-880) *)
+     extra frame; step(); popTryFrame; popCtx — since 195c9cc the two pops also run on the panic path
+     (deferred leaveOnPanic, func.go) *)
   with exec_gen (l : codes) (s : st) {struct l} : outcome * st :=
     match l with
     | SNil => (ONorm, s)
@@ -395,9 +395,9 @@ Section Exec.
         | OThrow => let '(o', s3) := restore_to c d s2 in
                     match o' with
                     | OThrow => (OThrow, pop_ctx (pop_frame s3))
-                    | _ => (o', if fixed c then pop_ctx (pop_frame (unwind_u c s3)) else unwind_u c s3)
+                    | _ => (o', pop_ctx (pop_frame (unwind_u c s3)))
                     end
-        | OIntr _ => (o, if fixed c then pop_ctx (pop_frame (unwind_u c s2)) else unwind_u c s2)
+        | OIntr _ => (o, pop_ctx (pop_frame (unwind_u c s2)))
         end
     end.
 
@@ -429,9 +429,9 @@ Section Exec.
         | OThrow => let '(o', s3) := restore_to c d s2 in
                     match o' with
                     | OThrow => (ONorm, pop_frame (pop_ctx (pop_frame s3)))
-                    | _ => (o', recover_deferred (if fixed c then pop_ctx (pop_frame (unwind_u c s3)) else unwind_u c s3))
+                    | _ => (o', recover_deferred (pop_ctx (pop_frame (unwind_u c s3))))
                     end
-        | OIntr _ => (o, recover_deferred (if fixed c then pop_ctx (pop_frame (unwind_u c s2)) else unwind_u c s2))
+        | OIntr _ => (o, recover_deferred (pop_ctx (pop_frame (unwind_u c s2))))
         end
     end.
 
@@ -527,23 +527,6 @@ Definition idle_vec (s : st) : list nat :=
 
 Definition is_idle (s : st) : bool :=
   Nat.eqb (cs s) 0 && Nat.eqb (length (ts s)) 0 && Nat.eqb (length (its s)) 0 && Nat.eqb (length (jq s)) 0 && negb (flag s).
-
-(* syntactic guard: the program never resumes a generator / async function — the region of finding F16 *)
-Fixpoint no_gen_i (i : instr) : bool :=
-  match i with
-  | IEv _ | IProbe | IThrow => true
-  | ITry b _ cb _ fb => no_gen_c b && no_gen_c cb && no_gen_c fb
-  | ICall b => no_gen_c b
-  | INat _ l => no_gen_s l
-  | IForOf _ l => no_gen_s l
-  | IGen _ => false
-  | IAsync _ _ => false
-  | IJob b => no_gen_c b
-  end
-with no_gen_c (p : code) : bool :=
-  match p with CNil => true | CCons i p' => no_gen_i i && no_gen_c p' end
-with no_gen_s (l : codes) : bool :=
-  match l with SNil => true | SCons b l' => no_gen_c b && no_gen_s l' end.
 
 (* ------------------------------------------------------------------------------------------- *)
 (* Part 4: the interleaving model of the flag protocol                                          *)
